@@ -17,8 +17,8 @@ import (
 	"tunnox-core/internal/core/events"
 	"tunnox-core/internal/core/idgen"
 	"tunnox-core/internal/core/storage"
-	"tunnox-core/internal/core/types"
 	"tunnox-core/internal/core/storage/memory"
+	"tunnox-core/internal/core/types"
 	"tunnox-core/internal/packet"
 	"tunnox-core/internal/protocol/session"
 	"tunnox-core/internal/stream"
@@ -263,8 +263,18 @@ func newLatchRig(kind string, free bool, seed int64) *latchRig {
 				return nil
 			}},
 			// a listener that is still accepting hands over a new connection
-			{"AcceptConnection", func() error { c := newMemConn("late"); defer c.Close(); _, err := sm.AcceptConnection(c, c); return err }},
-			{"CreateConnection", func() error { c := newMemConn("late"); defer c.Close(); _, err := sm.CreateConnection(c, c); return err }},
+			{"AcceptConnection", func() error {
+				c := newMemConn("late")
+				defer c.Close()
+				_, err := sm.AcceptConnection(c, c)
+				return err
+			}},
+			{"CreateConnection", func() error {
+				c := newMemConn("late")
+				defer c.Close()
+				_, err := sm.CreateConnection(c, c)
+				return err
+			}},
 			{"AcceptThenClose", func() error {
 				c := newMemConn("late")
 				defer c.Close()
@@ -295,7 +305,13 @@ func newLatchRig(kind string, free bool, seed int64) *latchRig {
 			{"RemoveTunnelConnection", func() error { sm.RemoveTunnelConnection(preID); return nil }},
 			{"KickOldControlConnection", func() error { sm.KickOldControlConnection(12345678, "other"); return nil }},
 			{"MarkTunnelClosed", func() error { sm.MarkTunnelClosed("t-1"); sm.IsTunnelClosed("t-1"); return nil }},
-			{"GetConnection", func() error { sm.GetConnection(preID); sm.ListConnections(); sm.GetActiveConnections(); sm.GetActiveChannels(); return nil }},
+			{"GetConnection", func() error {
+				sm.GetConnection(preID)
+				sm.ListConnections()
+				sm.GetActiveConnections()
+				sm.GetActiveChannels()
+				return nil
+			}},
 			{"GetConnectionStats", func() error { sm.GetConnectionStats(); return nil }},
 			{"GetControlConnection", func() error {
 				sm.GetControlConnection(preID)
